@@ -15,6 +15,7 @@ import os, sys, json, re, math, itertools
 import vcommon as V
 
 PROP = "coq/C12/Properties_C12.v"
+PROP_GEN = "coq/C12/Properties_C12_gen.v"     # theorems about coq/Gen/GenFootC12.v, regenerated from the binary on every run
 EXTRACT = "coq/C12/Extract_C12.v"
 DRIVER = "props/C12/driver.ml"
 PROGS = {"c12sim": ["props/C12/unit.cpp"]}
@@ -405,12 +406,13 @@ def gen_rcase(r, k):
         L = ["colvar {", "  name v%d" % v, "  width 0.5"]
         is_scalar = True
         ncomp = 1
+        dbg = ["    debugGradients on"] if r.random() < 0.3 else []     # components that log while they are evaluated
         if kind == "distance":
-            L += ["  distance {", "    group1 { %s }" % grp(a[:2]), "    group2 { %s }" % grp(a[2:4]), "  }"]
+            L += ["  distance {"] + dbg + ["    group1 { %s }" % grp(a[:2]), "    group2 { %s }" % grp(a[2:4]), "  }"]
         elif kind in ("distance2c", "dist3c"):
             ncomp = 2 if kind == "distance2c" else 3
             for i in range(ncomp):
-                L += ["  distance {", "    name d%d" % i, "    componentCoeff %s" % r.choice(["1.0", "0.5", "-1.0", "2.0"]),
+                L += ["  distance {"] + dbg + ["    name d%d" % i, "    componentCoeff %s" % r.choice(["1.0", "0.5", "-1.0", "2.0"]),
                       "    group1 { %s }" % grp(a[2 * i:2 * i + 1]), "    group2 { %s }" % grp(a[2 * i + 1:2 * i + 2]), "  }"]
         elif kind == "angle":
             L += ["  angle {", "    group1 { %s }" % grp(a[:1]), "    group2 { %s }" % grp(a[1:3]), "    group3 { %s }" % grp(a[3:4]), "  }"]
@@ -453,9 +455,9 @@ def gen_rcase(r, k):
     biases = []
     nb = r.randint(1, 4)
     for b in range(nb):
-        cand = ["harmonic", "harmonic", "walls", "linear", "meta", "meta", "histogram", "abf"]
+        cand = ["harmonic", "harmonic", "walls", "linear", "meta", "meta", "histogram", "abf", "abf", "metarep"]
         kind = r.choice(cand)
-        if kind in ("walls", "linear", "meta", "histogram", "abf") and not scalar:
+        if kind in ("walls", "linear", "meta", "histogram", "abf", "metarep") and not scalar:
             kind = "harmonic"
         abf_ok = [v for v in scalar if vars_[v]["kind"] in ("distance", "distz", "gyration", "angle")]   # total force available
         if kind == "abf" and not abf_ok:
@@ -484,6 +486,11 @@ def gen_rcase(r, k):
             if grids == "on" and r.random() < 0.4:
                 L += ["  keepHills on"]
             L += ["}"]
+        elif kind == "metarep":
+            # a bias that shares data with replicas (through files): the module must then run the bias loop on the main thread
+            v = r.choice(scalar)
+            L = ["metadynamics {", "  name b%d" % b, "  colvars v%d" % v, "  hillWeight 0.25", "  hillWidth 2.0", "  newHillFrequency 2",
+                 "  multipleReplicas on", "  replicaID rep1", "  replicasRegistry @TAG@.registry.txt", "  replicaUpdateFrequency 2", "}"]
         elif kind == "histogram":
             vs = r.sample(scalar, min(len(scalar), r.choice([1, 2])))
             L = ["histogram {", "  name b%d" % b, "  colvars " + " ".join("v%d" % v for v in vs), "}"]
@@ -540,7 +547,7 @@ def rcase_config(c):
 def rcase_scenario(c, smp, tag):
     L = ["natoms %d" % c["natoms"], "temperature 300", "dt 1", "gauss 0.25 -0.5 0.125 1.0 -0.75"]
     L += ["forcescript " + " ".join("v%d %s" % (v, V.hexf(f)) for v, f in c["script"])] if c["use_script"] else ["forcescript"]
-    L += ["prefix %s" % tag, "smp %s 1" % smp, "new", "config EOF"] + rcase_config(c) + ["EOF", "show items 0 af 1 tf 1"]
+    L += ["prefix %s" % tag, "smp %s 1" % smp, "new", "log %s.log" % tag, "config EOF"] + [l.replace("@TAG@", tag) for l in rcase_config(c)] + ["EOF", "setupoutput", "show items 1 af 1 tf 1"]
     for st in c["steps"]:
         for v, f in st["flags"]:
             L += ['scriptq cv colvar v%d cvcflags "%s"' % (v, " ".join(map(str, f)))]
@@ -571,6 +578,9 @@ def rich_part(run, r, sim, cases, d, env=None):
     envs.setdefault("OMP_NUM_THREADS", str(r.choice([2, 3, 4])))
     for c in cases:
         ta, tb = "A%d" % c["id"], "B%d" % c["id"]
+        if any(x["kind"] == "metarep" for x in c["biases"]):
+            for tg in (ta, tb):
+                open(os.path.join(d, tg + ".registry.txt"), "w").close()    # the (empty) shared registry of the replicas
         rc1, o1, e1 = run_batch(sim, rcase_scenario(c, c["smp"], ta), d, envs, timeout=300)
         rc2, o2, e2 = run_batch(sim, rcase_scenario(c, "serial", tb), d, envs, timeout=300)
         rep = {"kind": "rcase", "case": c}
@@ -591,6 +601,10 @@ def rich_part(run, r, sim, cases, d, env=None):
             continue
         key = json.dumps(rcase_config(c))
         run.count(key, nontrivial=len(c["biases"]) >= 2 or any(x["ncomp"] >= 2 for x in c["vars"]))
+        if any(x["kind"] == "metarep" for x in c["biases"]):
+            run.dist("R:replica-sharing bias (bias loop must stay on the main thread)")
+            if any(l.startswith("BITEMS") for l in o1):
+                run.violation("replica-sharing:parallel-bias-loop", "a bias with replicaUpdateFrequency > 0 is active but the module ran the parallel bias loop; config:\n%s" % "\n".join(rcase_config(c)), rep)
         df = first_diff(strip_items(o1), strip_items(o2))
         if df:
             t = step_of_line(strip_items(o1), df[0])
@@ -599,6 +613,18 @@ def rich_part(run, r, sim, cases, d, env=None):
                 t, df[1], c["smp"], c["steps"][max(t, 0)]["nt"], df[2], "\n".join(rcase_config(c))), rep)
             continue
         fa, fb = read_files(d, ta), read_files(d, tb)
+        # the log: items running on different threads may interleave their messages (the property fixes the indentation,
+        # not an order between concurrent items), so the MULTISET of log lines - text and indentation - must be that of the
+        # serial run; every other file must be byte-identical
+        la, lb = fa.pop(".log", b""), fb.pop(".log", b"")
+        sa, sb = sorted(la.replace(ta.encode(), b"@").split(b"\n")), sorted(lb.replace(tb.encode(), b"@").split(b"\n"))
+        run.dist("R:log lines compared", len(sa))
+        if sa != sb:
+            only = [x for x in sa if x not in sb][:2] + [x for x in sb if x not in sa][:2]
+            run.violation("smp-vs-serial:log-lines", "rich scenario: the log written under schedule %s (threads %s) is not a rearrangement of the serial log (%d vs %d lines), e.g. %s; config:\n%s" % (
+                c["smp"], c["steps"][0]["nt"], len(sa), len(sb), [x.decode("utf8", "replace")[:120] for x in only], "\n".join(rcase_config(c))), rep)
+        fa = {k: v.replace(ta.encode(), b"@") for k, v in fa.items()}
+        fb = {k: v.replace(tb.encode(), b"@") for k, v in fb.items()}
         for suffix in sorted(set(fa) | set(fb)):
             if fa.get(suffix) != fb.get(suffix):
                 run.violation("smp-vs-serial:files", "rich scenario: file *%s written under schedule %s differs from the one written under smp serial (accumulated data / output); config:\n%s" % (
@@ -916,6 +942,8 @@ def tsan_part(run, r, tcases, rcases, d):
         if c["smp"] == "perm":
             c2 = dict(c); c2["steps"] = [dict(st, nt=max(2, st["nt"])) for st in c["steps"]]
             jobs.append((c2, rcase_scenario(c2, "perm", "T%d" % c["id"]), "rcase"))
+    # two components that create rotation objects while they are evaluated (debugGradients) on two threads
+    jobs.append(({"debug-gradients-two-threads": True}, [l for l in depth_scenario("perm", "x") if not l.startswith("log ")], "scenario"))
     jobs.append(({"errbits": True}, ["natoms 1", "smp perm 2", "new"] + errbits_lines(r, 6) + ["endcase 0"], "errbits"))
     for c, scen, kind in jobs:
         rc, out, err = run_batch(sim, scen, d, env, timeout=600)
@@ -933,10 +961,276 @@ def tsan_part(run, r, tcases, rcases, d):
             run.violation("tsan:%s" % re.sub(r"[^A-Za-z0-9_:]", "_", fn)[:60],
                           "ThreadSanitizer (std::thread executor) reports a data race in %s (%s:%s) [exploration: a failing schedule, not a proof obligation]; report:\n%s" % (
                               fn, os.path.basename(lib[0][1]), lib[0][2], rep[:1500]),
-                          {"kind": kind, "case": c, "tsan": True, "scenario": scen if kind == "errbits" else None})
+                          {"kind": kind, "case": c, "tsan": True, "scenario": scen if kind in ("errbits", "scenario") else None})
             break
     run.cov["correspondence"]["tsan_scenarios"] = len(jobs)
     run.cov["correspondence"]["tsan_reports_in_library"] = nrep
+
+
+# ------------------------------------------------------------------------------------------------
+# OPES threaded kernel sums (exploration, thorough tier): the only inner parallel loops in the library are in
+# colvarbias_opes.cpp, compiled only with -DOPES_THREADING (never defined by the normal build) and active under
+# `smp inner_loop`.  Build that variant when it compiles and run the thread-count oracle on it.
+# ------------------------------------------------------------------------------------------------
+def opes_scenario(r, smp_key):
+    L = ["natoms 8", "temperature 300", "dt 1", "smp %s 1" % ("serial" if smp_key is None else "omp"), "new", "config EOF"]
+    if smp_key:
+        L += ["smp %s" % smp_key]
+    for v in range(2):
+        L += ["colvar {", "  name v%d" % v, "  lowerBoundary 0", "  upperBoundary 20", "  width 0.5", "  distance {",
+              "    group1 { atomNumbers %d %d }" % (4 * v + 1, 4 * v + 2), "    group2 { atomNumbers %d %d }" % (4 * v + 3, 4 * v + 4), "  }", "}"]
+    L += ["opes_metad {", "  name o", "  colvars v0 v1", "  newHillFrequency 1", "  barrier 10.0", "  gaussianSigma 0.3 0.3", "  compressionThreshold 0", "}",
+          "EOF", "show af 1"]
+    rr = V.rng("C12opes")
+    pos = [[rr.uniform(-4, 4) for _ in range(3)] for _ in range(8)]
+    for t in range(40):
+        for a in range(8):
+            for q in range(3):
+                pos[a][q] += rr.uniform(-0.3, 0.3)
+            L.append("pos %d %s %s %s" % (a + 1, V.hexf(pos[a][0]), V.hexf(pos[a][1]), V.hexf(pos[a][2])))
+        L.append("step")
+    return L + ["endcase 0"]
+
+
+def opes_threading_part(run, r, d):
+    V.CXX_VARIANTS.setdefault("opesthr", ["-O1", "-g0", "-DOPES_THREADING"])
+    try:
+        sim = V.build_prog("c12sim_opesthr", PROGS["c12sim"], variant="opesthr")
+    except V.InfraError as e:
+        run.notes.append("OPES_THREADING variant does not build from this tree (exploration skipped): %s" % str(e).strip().split("\n")[-1][:200])
+        run.dist("opes-threading: variant does not compile")
+        return
+    ref = V.run_lines(sim, opes_scenario(r, None), cwd=d, env={"OMP_NUM_THREADS": "1"})[1]
+    if not any(l.startswith("CONFIG err=ok") for l in ref):
+        run.notes.append("OPES scenario rejected by the OPES_THREADING variant")
+        return
+    for nt in (1, 2, 4):
+        out = V.run_lines(sim, opes_scenario(r, "inner_loop"), cwd=d, env={"OMP_NUM_THREADS": str(nt), "OMP_DYNAMIC": "false"})[1]
+        run.count("opes-threading:%d" % nt, nt > 1)
+        run.dist("opes-threading: runs")
+        df = first_diff(out, ref)
+        if df:
+            run.violation("opes-threading:thread-count-dependent-sums",
+                          "library built with -DOPES_THREADING, opes_metad on two distances, `smp inner_loop`, OMP_NUM_THREADS=%d: step %d prints `%s`, the serial run `%s`" % (
+                              nt, step_of_line(out, df[0]), df[1], df[2]), {"kind": "opes", "threads": nt, "scenario": opes_scenario(r, "inner_loop")})
+            break
+
+
+# ------------------------------------------------------------------------------------------------
+# footprints derived from the implementation -> coq/Gen/GenFootC12.v (regenerated-table theorems)
+# ------------------------------------------------------------------------------------------------
+def coq_z(x):
+    return "(%d)%%Z" % x
+
+
+def coq_list(items):
+    return "[" + "; ".join(items) + "]"
+
+
+def coq_loc(tok):
+    w = tok.split(":")
+    return "(" + " ".join(w) + ")" if len(w) > 1 else w[0]
+
+
+def coq_fp(reads, writes):
+    return "(%s, %s)" % (coq_list([coq_loc(t) for t in reads]), coq_list([coq_loc(t) for t in writes]))
+
+
+def probe_scenario(c):
+    L = tcase_scenario(c, "perm")[:-1]
+    atom = 0
+    for zs in c["steps"][-1]["z"]:
+        for z in zs:
+            atom += 1
+            L.append("pos %d 0 0 %d" % (atom, z + 1000 + 7 * atom))
+    return L + ["footprints", "endcase %d" % c["id"]]
+
+
+def has_error_step(c):
+    # (also excluded as probes: a scripted force of exactly 0 - the task then writes nothing observable)
+    if c["use_script"] and any(f == 0 for _, f in c["script"]):
+        return True
+    return any(len(f) == len(c["vars"][v]["coeff"]) and not any(f) for st in c["steps"] for v, f in st["flags"])
+
+
+def derive_footprints(sim, cases, d):
+    """-> list of (case, t, flags per variable, comp fps, collect fps, bias fps) derived from the binary"""
+    cases = [c for c in cases if not has_error_step(c)]
+    scen = []
+    for c in cases:
+        scen += probe_scenario(c)
+    rc, out, err = run_batch(sim, scen, d)
+    by = split_cases(out)
+    res = []
+    for c in cases:
+        ls = by.get(c["id"])
+        if ls is None or "FPEND" not in ls:
+            res.append((c, None, None, None, None, None))
+            continue
+        cfg, steps = parse_steps(ls)
+        last = steps[-1]
+        flags = [[last["cvc"][("v%d" % v, i)][0] for i in range(len(x["coeff"]))] for v, x in enumerate(c["vars"])]
+        fps = {"comp": [], "collect": [], "bias": []}
+        for l in ls:
+            if l.startswith("FP "):
+                w = l.split()
+                kind = "bias" if w[1] == "script" else w[1]
+                W = [t for t in l.split(" W=")[1].split(" R=")[0].split(",") if t]
+                R = [t for t in l.split(" R=")[1].split(",") if t]
+                fps[kind].append((R, W))
+        res.append((c, len(c["steps"]) - 1, flags, fps["comp"], fps["collect"], fps["bias"]))
+    return res
+
+
+def rich_probe_scenario(c, tag):
+    L = rcase_scenario(c, "perm", tag)
+    L = L[:[i for i, l in enumerate(L) if l.startswith("save ")][0]]
+    rr = V.rng("C12probe%d" % c["id"])
+    for a, q in enumerate(c["steps"][-1]["pos"]):
+        L.append("pos %d %r %r %r" % (a + 1, q[0] + rr.uniform(0.3, 0.6), q[1] - rr.uniform(0.3, 0.6), q[2] + rr.uniform(0.3, 0.6)))
+    return L + ["footprints", "endcase %d" % c["id"]]
+
+
+def derive_rich_footprints(sim, cases, d):
+    """footprints of the work items of configurations OUTSIDE the model (other component / bias kinds): only their
+    independence is checked.  -> list of (case, comp fps, collect fps, bias fps, number of non-repeatable items)"""
+    res = []
+    for c in cases:
+        tag = "P%d" % c["id"]
+        open(os.path.join(d, tag + ".registry.txt"), "w").close()
+        rc, out, err = run_batch(sim, rich_probe_scenario(c, tag), d, timeout=300)
+        if "FPEND" not in out or not any(l.startswith("CONFIG err=ok") for l in out):
+            continue
+        fps = {"comp": [], "collect": [], "bias": []}
+        nrep = 0
+        for l in out:
+            if l.startswith("FP "):
+                w = l.split()
+                kind = "bias" if w[1] == "script" else w[1]
+                W = [t for t in l.split(" W=")[1].split(" R=")[0].split(",") if t]
+                R = [t for t in l.split(" R=")[1].split(",") if t]
+                if "NOTREPEATABLE" in l:
+                    nrep += 1
+                fps[kind].append((R, W))
+        res.append((c, fps["comp"], fps["collect"], fps["bias"], nrep))
+        for f in os.listdir(d):
+            if f.startswith(tag + "."):
+                os.remove(os.path.join(d, f))
+    return res
+
+
+def write_gen_footprints(derived, rich=()):
+    L = ["(* GENERATED by props/C12/check.py from the rebuilt binary (c12sim `footprints`); do not edit. *)",
+         "From Coq Require Import ZArith List Bool.", "From CV Require Import C12.SmpModel.", "Import ListNotations.", "",
+         "Definition gen_probes : list probe := ["]
+    rows = []
+    for c, t, flags, comp, coll, bias in derived:
+        if t is None:
+            continue
+        vs = coq_list(["mkVar %d %s [] %s" % (x["tsf"], coq_list(["true" if f else "false" for f in flags[v]]), coq_list([coq_z(q) for q in x["coeff"]]))
+                       for v, x in enumerate(c["vars"])])
+        bs = coq_list(["mkBias %d %s %s %s" % (x["tsf"], coq_list([str(v) for v in x["vars"]]), coq_z(x["k"]), coq_list([coq_z(q) for q in x["centers"]]))
+                       for x in c["biases"]])
+        sc = coq_list(["(%d, %s)" % (v, coq_z(f)) for v, f in c["script"]])
+        cfg = "(mkCfg %s %s %s %s %s)" % (vs, bs, "true" if c["use_script"] else "false", "true" if c["after"] else "false", sc)
+        rows.append("  mkProbe %s %d\n    %s\n    %s\n    %s" % (cfg, t, coq_list([coq_fp(*f) for f in comp]), coq_list([coq_fp(*f) for f in coll]),
+                                                                  coq_list([coq_fp(*f) for f in bias])))
+    L.append(";\n".join(rows))
+    L.append("].")
+    L += ["", "(* configurations outside the model (other component and bias kinds): derived footprints only *)",
+          "Definition gen_rich_probes : list probe := ["]
+    rrows = []
+    for c, comp, coll, bias, nrep in rich:
+        rrows.append("  mkProbe (mkCfg [] [] false false []) 0\n    %s\n    %s\n    %s" % (
+            coq_list([coq_fp(*f) for f in comp]), coq_list([coq_fp(*f) for f in coll]), coq_list([coq_fp(*f) for f in bias])))
+    L.append(";\n".join(rrows))
+    L.append("].")
+    txt = "\n".join(L) + "\n"
+    p = os.path.join(V.COQ, "Gen", "GenFootC12.v")
+    os.makedirs(os.path.dirname(p), exist_ok=True)
+    if not os.path.exists(p) or open(p).read() != txt:
+        open(p, "w").write(txt)
+    return len(rows)
+
+
+def foot_model_line(c, t, flags):
+    P = ["FOOT", str(t), str(len(c["vars"]))]
+    for v, x in enumerate(c["vars"]):
+        P += [str(x["tsf"]), str(len(x["coeff"]))] + [str(int(f)) for f in flags[v]] + [str(q) for q in x["coeff"]]
+    P += [str(len(c["biases"]))]
+    for x in c["biases"]:
+        P += [str(x["tsf"]), str(len(x["vars"]))] + [str(v) for v in x["vars"]] + [str(x["k"])] + [str(q) for q in x["centers"]]
+    P += ["1" if c["use_script"] else "0", "1" if c["after"] else "0", str(len(c["script"]))]
+    for v, f in c["script"]:
+        P += [str(v), str(f)]
+    return " ".join(P)
+
+
+def parse_foot(line):
+    out = {}
+    for part in line.split(" ; "):
+        kind, _, rest = part.strip().partition(" ")
+        fps = []
+        for item in rest.split(" | "):
+            item = item.strip()
+            if not item:
+                continue
+            R = [t for t in item.split("R=")[1].split(" W=")[0].split(",") if t]
+            W = [t for t in item.split(" W=")[1].split(",") if t]
+            fps.append((R, W))
+        out[kind] = fps
+    return out
+
+
+def fp_indep(a, b):
+    return not (set(a[1]) & set(b[1])) and not (set(a[1]) & set(b[0])) and not (set(b[1]) & set(a[0]))
+
+
+def footprint_oracle(run, model, derived, rich):
+    """the comparisons of the regenerated-table theorems, redone in python so that a failure names the probe, the item and the
+    locations (the probe scenario is the concrete failing input)"""
+    ok = [x for x in derived if x[1] is not None]
+    rcm, mout, em = V.run_lines(model, [foot_model_line(c, t, flags) for c, t, flags, _, _, _ in ok])
+    for k, (c, t, flags, comp, coll, bias) in enumerate(ok):
+        m = parse_foot(mout[k]) if k < len(mout) else {}
+        for kind, got in (("COMP", comp), ("COLLECT", coll), ("BIAS", bias)):
+            want = m.get(kind, [])
+            bad = None
+            if len(got) != len(want):
+                bad = "%d items derived, %d in the model" % (len(got), len(want))
+            else:
+                for i, (g, w_) in enumerate(zip(got, want)):
+                    if set(g[0]) != set(w_[0]) or set(g[1]) != set(w_[1]):
+                        bad = "item %d reads %s writes %s in the implementation; the model's table has reads %s writes %s" % (
+                            i, sorted(g[0]), sorted(g[1]), sorted(w_[0]), sorted(w_[1]))
+                        break
+            if bad:
+                run.violation("footprints:derived-differs-from-model:" + kind.lower(),
+                              "footprints derived from the binary (item run alone / one location perturbed at a time) differ from the model's footprint table, %s loop: %s; config:\n%s" % (
+                                  kind.lower(), bad, "\n".join(tcase_config(c))), {"kind": "footprint", "scenario": probe_scenario(c)})
+    for c, comp, coll, bias, nrep in rich:
+        for kind, l in (("comp", comp), ("bias", bias), ("collect", coll)):
+            for i in range(len(l)):
+                for j in range(i + 1, len(l)):
+                    if not fp_indep(l[i], l[j]):
+                        run.violation("footprints:items-not-independent:" + kind,
+                                      "derived footprints of two items of the %s loop overlap: item %d reads %s writes %s, item %d reads %s writes %s; config:\n%s" % (
+                                          kind, i, l[i][0], l[i][1], j, l[j][0], l[j][1], "\n".join(rcase_config(c))),
+                                      {"kind": "footprint", "scenario": rich_probe_scenario(c, "P%d" % c["id"])})
+
+
+def probe_cases(r_cases):
+    return witness_tcases() + load_corpus() + [c for c in r_cases if not has_error_step(c)][:8]
+
+
+def presetup():
+    """before the Coq build: coq/Gen/GenFootC12.v from the freshly built binary"""
+    sim = V.build_prog("c12sim", PROGS["c12sim"])
+    r = V.rng("C12")
+    d = V.scratch("C12p")
+    tcs = [gen_tcase(r, k) for k in range(12)]
+    write_gen_footprints(derive_footprints(sim, probe_cases(tcs), d), derive_rich_footprints(sim, [gen_rcase(r, k) for k in range(4)], d))
+    V.coq_project()
 
 
 # ------------------------------------------------------------------------------------------------
@@ -968,6 +1262,7 @@ def load_corpus():
 
 
 def setup():
+    presetup()
     V.extract_model("C12", EXTRACT, DRIVER, [])
     V.build_prog("c12sim", PROGS["c12sim"])
     try:
@@ -997,19 +1292,47 @@ def check(run):
         "the disjointness of the REAL footprints (which fields each C++ work item touches) is the hand-written footprint table of SmpModel.v section 5, tied only through observable values",
         "an execution is modelled as an interleaving of atomic items; finer-grained interleavings of the real threads are covered by the footprint argument, not by a theorem about the C++ memory model",
     ]
-    st = V.standard_start(run, PROP, EXTRACT, DRIVER, PROGS, extra_ml=())
+    d = V.scratch("C12")
+    gen = [gen_tcase(r, k) for k in range(200 if quick else 4000)]
+    rc = [gen_rcase(r, k) for k in range(50 if quick else 1200)]
+    # footprints derived from the rebuilt binary -> coq/Gen/GenFootC12.v, BEFORE the proofs are checked
+    derived, rich = [], []
+    try:
+        sim0 = V.build_prog("c12sim", PROGS["c12sim"])
+        derived = derive_footprints(sim0, probe_cases(gen), d)
+        rich = derive_rich_footprints(sim0, rc[:6 if quick else 60], d)
+        nprobe = write_gen_footprints(derived, rich)
+        run.dist("footprints: rich probes (independence only)", len(rich))
+        run.dist("footprints: rich items probed", sum(len(x[1]) + len(x[2]) + len(x[3]) for x in rich))
+        run.dist("footprints: rich items that do not repeat (writes only)", sum(x[4] for x in rich))
+        run.cov["correspondence"]["footprint_probes"] = nprobe
+        run.dist("footprints: probes derived from the binary", nprobe)
+        run.dist("footprints: items probed", sum(len(x[3]) + len(x[4]) + len(x[5]) for x in derived if x[1] is not None))
+        for x in derived:
+            if x[1] is None:
+                run.mismatch("footprints", {"case": x[0]}, "the footprint probe did not complete", "FPEND")
+    except V.InfraError as e:
+        if "compilation of /repo failed" in str(e):
+            raise
+        run.notes.append("footprint derivation unavailable: %s" % str(e)[-200:])
+    st = V.standard_start(run, [PROP, PROP_GEN], EXTRACT, DRIVER, PROGS, extra_ml=())
     if st is None:
         return
     model, exes = st
     sim = exes["c12sim"]
-    d = V.scratch("C12")
+    footprint_oracle(run, model, derived, rich)
+    if getattr(run, "broken_theorems", []) and derived:
+        # name the first probe whose derived footprints differ from the model's table (python re-check of the same comparison)
+        for c, t, flags, comp, coll, bias in derived:
+            if t is not None:
+                run.sample({"footprint_probe_config": tcase_config(c), "derived_comp": comp[:4], "derived_bias": bias[:4]})
+                break
 
     # witness of the (repaired) item-list defect and corpus first, then generated cases
-    tc = witness_tcases() + load_corpus() + [gen_tcase(r, k) for k in range(300 if quick else 4000)]
+    tc = witness_tcases() + load_corpus() + gen
     B = 200
     for b0 in range(0, len(tc), B):
         tie_part(run, r, model, sim, tc[b0:b0 + B], d)
-    rc = [gen_rcase(r, k) for k in range(80 if quick else 1200)]
     rich_part(run, r, sim, rc, d)
     # the library's own OpenMP modes x thread counts: every component kind once (round robin), then random mixtures
     lc = [gen_lcase(r, k, kinds=[sorted(set(LKINDS))[k % len(set(LKINDS))]]) for k in range(len(set(LKINDS)))]
@@ -1020,9 +1343,10 @@ def check(run):
     run.cov["correspondence"].update({"t_scenarios": len(tc), "r_scenarios": len(rc)})
     # ThreadSanitizer with the std::thread executor: a few scenarios in the quick tier, more in the thorough tier
     if quick:
-        tsan_part(run, r, tc[:10], rc[:8], d)
+        tsan_part(run, r, tc[:8], rc[:6], d)
     else:
         tsan_part(run, r, tc[:120], rc[:150], d)
+        opes_threading_part(run, r, d)
 
 
 def replay(path):
@@ -1061,6 +1385,15 @@ def replay(path):
         b = V.run_lines(sim, lcase_scenario(c, None, "B"), cwd=d, env=envs(1))[1]
         print("smp %s, OMP_NUM_THREADS=%s vs serial single thread; first difference:" % (rp["mode"], rp["threads"]), first_diff(strip_items(a), strip_items(b)))
         print("---- scenario (run with OMP_NUM_THREADS=%s):\n" % rp["threads"] + "\n".join(lcase_scenario(c, rp["mode"], "A")))
+    elif rp.get("kind") == "footprint":
+        for f in ("P.registry.txt",):
+            open(os.path.join(d, f), "w").close()
+        print("\n".join(l for l in V.run_lines(sim, rp["scenario"], cwd=d)[1] if l.startswith("FP") or l.startswith("CONFIG")))
+        print("---- scenario:\n" + "\n".join(rp["scenario"]))
+    elif rp.get("kind") == "opes":
+        print("build the library with -DOPES_THREADING, run with OMP_NUM_THREADS=%s:\n" % rp["threads"] + "\n".join(rp["scenario"][:40]) + "\n...")
+    elif rp.get("kind") == "scenario":
+        print("\n".join(rp.get("scenario") or []))
     elif rp.get("kind") == "errbits":
         print(rp.get("line") or "\n".join(rp.get("scenario") or []))
     elif rp.get("kind") == "depth":
